@@ -32,6 +32,12 @@ type graph struct {
 // Process the Event by routing it through all of the graph's nodes,
 // starting with the root node.
 func (g *graph) process(ctx context.Context, e *Event) (Status, error) {
+	return g.processWithThresholds(ctx, e, g.successThreshold, g.successThresholdSinks)
+}
+
+// processWithThresholds is process, using the supplied success thresholds
+// rather than reading the graph's own (which the caller may need to guard).
+func (g *graph) processWithThresholds(ctx context.Context, e *Event, threshold, thresholdSinks int) (Status, error) {
 	statusChan := make(chan Status)
 	var wg sync.WaitGroup
 	go func() {
@@ -73,7 +79,7 @@ func (g *graph) process(ctx context.Context, e *Event) (Status, error) {
 			}
 		}
 	}
-	return status, status.getError(ctx.Err(), g.successThreshold, g.successThresholdSinks)
+	return status, status.getError(ctx.Err(), threshold, thresholdSinks)
 }
 
 // Recursively process every node in the graph.
